@@ -91,6 +91,14 @@ func randCase(r *Rand, s string) string {
 func c13Run(c *Ctx) {
 	r := c.R
 	d := GenDecl(c.Sub("d"), c13Cfg())
+	if inHistTail(c, 32000, 1000000) {
+		// one IniParser used for two reads while the program changes the model in between
+		c.Case(func() interface{} { return map[string]interface{}{"declaration_after_the_change": d.Describe()} })
+		if hl := histIniReuse(c, d); hl != "" && !c.Violated() {
+			c.Held("history/ini-reuse/"+hl, fmt.Sprintf("opts=%d", minInt(len(d.Opts), 30)))
+		}
+		return
+	}
 	asDefaults := c.K%2 == 1
 	form := []string{"ini-name", "field", "long", "short"}[(c.K/2)%4]
 	crossing := int((c.K / 8) % 4) // 0 none; 1 ini-name=other's field; 2 field=other's long; 3 one-letter long = other's short
@@ -545,11 +553,11 @@ func init() {
 		Cases: func(tier string) int64 {
 			switch tier {
 			case "thorough":
-				return 1000000
+				return 1000000 + 83333 // + history cases
 			case "race":
 				return 0
 			}
-			return 32000
+			return 32000 + 2666 // + history cases
 		},
 		Run:           c13Run,
 		MinNontrivial: 300,
